@@ -275,4 +275,38 @@ Definition C18_run_stmt : Prop :=
     forall (m : @machine I P) (h : list (@op I P)),
       run keq hash1 ple peq alloc_limit m h = run keq hash2 ple peq alloc_limit m h.
 
+(** ** C17 / C14: the ghost fields (capacity, comparison counter) never
+    influence contents or results.  [erase] forgets them. *)
+Definition erase (s : store) : store := set_cap (set_ticks s 0) 0%N.
+Definition erase_m (m : @machine I P) : @machine I P :=
+  (fun x : option (kind * store) => (fun ks : kind * store => (ks.1, erase ks.2)) <$> x) <$> m.
+
+(** one step: same output, same comparison count, same machine up to ghosts *)
+Definition ghost_indep_step_stmt : Prop :=
+  forall (m : @machine I P) (o : @op I P),
+    (step keq hash ple peq alloc_limit m o).2 = (step keq hash ple peq alloc_limit (erase_m m) o).2 /\
+    total_ticks (step keq hash ple peq alloc_limit m o).1 =
+      total_ticks (step keq hash ple peq alloc_limit (erase_m m) o).1 /\
+    erase_m (step keq hash ple peq alloc_limit m o).1 =
+      erase_m (step keq hash ple peq alloc_limit (erase_m m) o).1.
+(** hence any later history: whatever capacity operations (or clones, which
+    only differ in ghosts) happened before, outputs and counts are the same *)
+Definition ghost_indep_run_stmt : Prop :=
+  forall (h : list (@op I P)) (m m' : @machine I P), erase_m m = erase_m m' ->
+    (fun x : @out I P * nat * @machine I P => (x.1.1, x.1.2, erase_m x.2)) <$> run keq hash ple peq alloc_limit m h =
+    (fun x : @out I P * nat * @machine I P => (x.1.1, x.1.2, erase_m x.2)) <$> run keq hash ple peq alloc_limit m' h.
+(** the capacity operations themselves (and clone) change nothing but ghosts *)
+Definition cap_ops_invisible_stmt : Prop :=
+  forall (m : @machine I P) (o : @op I P),
+    match o with
+    | OReserve _ _ | OTryReserve _ _ | OShrink _ | OCapacity _ =>
+        is_fault (step keq hash ple peq alloc_limit m o).2 = false ->
+        erase_m (step keq hash ple peq alloc_limit m o).1 = erase_m m
+    | OClone src dst | OCloneFrom src dst =>
+        (step keq hash ple peq alloc_limit m o).2 = OutUnit ->
+        exists ks, getreg (erase_m m) src = Some ks /\
+                   erase_m (step keq hash ple peq alloc_limit m o).1 = <[dst := Some ks]> (erase_m m)
+    | _ => True
+    end.
+
 End PropSpec.
